@@ -199,7 +199,9 @@ def check(case):
         mask = case["mask"]
         positions = [i for i, m in enumerate(mask) if m]
         if case.get("via") == "take_axis":
-            got = call(a.take_axis, np.array(mask, dtype=bool), axis=case["axis"])
+            # (as an ndarray, or - every second mask - as a plain list of bools)
+            marg = np.array(mask, dtype=bool) if sum(mask) % 2 else [bool(m) for m in mask]
+            got = call(a.take_axis, marg, axis=case["axis"])
             what = "take_axis(mask {}, axis={!r})".format(mask, case["axis"])
         else:
             got = call(a.compress_axis, np.array(mask, dtype=bool), axis=case["axis"])
